@@ -12,9 +12,13 @@ Open Scope N_scope.
    mod    := catch stages bud  progs progs progs  lp(end)      catch odd = panics are caught; stages' = 1 + stages mod 3;
                                                       bit 1+id of catch: the handle of task id is join()ed (else try_join)
    progs  := n lp(prog){n}                            start programs, message programs, tasks
-   prog   := (op a b c)*                              op mod 10: 0 log c | 1 send(far = a odd, delay b, payload c)
+   prog   := (op a b c)*                              op mod 13: 0 log c | 1 send(far = a odd, delay b, payload c)
                                                       | 2 schedule(delay b, payload c) | 3 sleep b | 4 shutdown
                                                       | 5 restart_in b | 6 panic | 7 quiet | 8 catch panics | 9 do not
+                                                      | 10 schedule_at(now - 1 - b) | 11 send_at(gate a, now - 1 - b)
+                                                      | 12 current().shutdow_and_restart_at(now - 1 - b): calls of the
+                                                        public API with a time stamp in the past; the library panics inside the call,
+                                                        which makes each of them a panic at that point of the callback / task
    inj    := kind m time payload                      kind mod 3: 0 handle_message_on(m) | 1 add_message_onto(m.out)
                                                       | 2 add_message_onto(m.far);   m mod k' *)
 Definition nxt (l : list N) : N * list N := match l with [] => (0, []) | x :: r => (x, r) end.
@@ -22,10 +26,10 @@ Definition nxt (l : list N) : N * list N := match l with [] => (0, []) | x :: r 
 Fixpoint quads (l : list N) : prog :=
   match l with
   | o :: a :: b :: c :: r =>
-    (let o := o mod 10 in
+    (let o := o mod 13 in
      if o =? 0 then ALog c else if o =? 1 then ASend (N.odd a) b c else if o =? 2 then ASched b c
      else if o =? 3 then ASleep b else if o =? 4 then AShutdown else if o =? 5 then ARestartIn b
-     else if o =? 6 then APanic else if o =? 7 then AQuiet else ASetCatch (o =? 8)) :: quads r
+     else if o =? 6 then APanic else if o =? 7 then AQuiet else if o <? 10 then ASetCatch (o =? 8) else APanic) :: quads r
   | _ => []
   end.
 
